@@ -18,6 +18,29 @@ WORDS = ["pragma", "#pragma", "#dim", "OPENQASM 3.0;", "OPENQASM 3", "OPENQASM",
          "readonly", "mutable", "void", "negctrl @", "1e3dt", "0B11", "6dta", "$_", "1__0", "\"0__1\"", "\"0__1"]
 
 
+# code points that text-handling code is tempted to special-case (byte order mark, line/paragraph separators,
+# other Unicode white space, controls, non-characters, surrogates' neighbours, plane-16 end)
+SPECIALS = ['\ufeff', '\u200b', '\u2028', '\u2029', '\u00a0', '\u0085', '\x0b', '\x0c', '\u200e', '\u200f',
+            '\x7f', '\x00', '\x01', '\x1a', '\x1b', '\ufffd', '\ufffe', '\uffff', '\ud7ff', '\ue000', '\U00010000',
+            '\U0010ffff', '\u3000', '\u1680', '\u2000', '\u202f', '\u205f', '\u00b5', '\u03bc', '\u2107', '\u03c0',
+            '\u03c4', '\r', '\r\n', '\t', '`', '\\', '\u00e9', '\u0301', '\u20e3', '\ufe0f', '\u200d', '\U0001f600']
+CONTEXTS = ["", "x", "OPENQASM 3.0;\nqubit q;\n", "1", "\"01", "\"ab\"", "// c", "/* c", "/* c */", "pragma p", "@a b",
+            "1.5", "0x1", "$1", "3n", "a ", "\n", "include \"f\";", "int[8] a = 1;"]
+
+
+def special_texts():
+    """every special code point alone, at offset 0 of, at the end of, and inside every context"""
+    out = []
+    for sp in SPECIALS:
+        for c in CONTEXTS:
+            out += [sp + c, c + sp, c + sp + c]
+            if len(c) > 2:
+                out.append(c[:len(c) // 2] + sp + c[len(c) // 2:])
+        for sp2 in SPECIALS[:12]:
+            out.append(sp + sp2)
+    return sorted(set(out))
+
+
 def enc(s):
     return ".".join("%x" % ord(c) for c in s)
 
